@@ -25,6 +25,7 @@ type loopInfo struct {
 }
 
 type retPoint struct {
+	block   *ssa.BasicBlock
 	pc      Term
 	st      *State
 	results []Term
@@ -1240,7 +1241,7 @@ func (x *Exec) runBody(b *ssa.BasicBlock, st *State, pc Term) {
 		for _, r := range t.Results {
 			rs = append(rs, x.operand(r, st))
 		}
-		x.rets = append(x.rets, retPoint{pc, st.clone(), rs})
+		x.rets = append(x.rets, retPoint{b, pc, st.clone(), rs})
 	case *ssa.Panic:
 	default:
 		if len(b.Succs) == 1 {
